@@ -214,6 +214,8 @@ LIBRARY_EDGE_NAMES = ['urlEncodeComponent', 'arrayCopy', 'urlEncode', 'systemTyp
 LABEL_POOLS = [['A', 'B', 'C', 'D']] * 3 + [['__bareScriptLoop0', '__bareScriptLoop0', '__bareScriptLoop12', 'A'], ['__bareScriptLoop', '__bareScriptLoop', '__bareScriptContinue0'],
                ['', 'B', '0', 'A b'], ['__bareScriptDone0', '__bareScriptLoop0', 'A', ''], ['label', '\u00e9', 'a.b', 'A'], ['A', 'a', ' A', 'A '],
                # labels spelled like the member names of the model itself
+               # labels that look like a composed key: <statement index>:<label>, <function name>.<label>
+               ['1:A', 'A', '0:A', '2:A'], ['A', '1:A', 'ff:A', 'ff.A'], ['3:B', 'B', '1:B', ':B'],
                ['expr', 'exprLoop', 'jump', 'name'], ['next_expr', 'return', 'function', 'include'], ['statements', 'label', 'args', 'includes']]
 # values a conditional jump may test directly (the documented truth table: null, false, 0, '', [] are false - everything else, the empty object included, is true)
 TRUTH_POOL = [None, True, False, 0.0, -0.0, 1.0, 0, 2, '', '0', 'x', [], [0.0], {}, {'a': None}, float('nan'), datetime.datetime(1970, 1, 1), datetime.date(2020, 1, 1)]
